@@ -183,8 +183,8 @@ func verifRunLoop(limit int, stops []string, script []verifEv) (res verifLoopRes
 
 // verifPinnedFindStop selects the model variant the oracle runs: 1 = FindStop as pinned (first
 // listed stop), 0 = the repaired FindStop of proposed_fixes/C14-F7.patch (earliest occurrence).
-// Flip to 0 (here and in runner_common/zz_verif_c14_test.go) when the fix is applied to /repo.
-const verifPinnedFindStop = 1
+// vlib/checks/c14.py passes it (PINNED_FINDSTOP); flip it there when the fix is applied to /repo.
+var verifPinnedFindStop = zzverif.EnvInt("VERIF_C14_PINNED", 1)
 
 func verifLoopLine(limit int, stops []string, script []verifEv) string {
 	var sb strings.Builder
